@@ -3,6 +3,7 @@ from __future__ import annotations
 import logging
 import pathlib
 import sys
+import tokenize
 from collections import defaultdict
 from collections.abc import Iterable
 from dataclasses import dataclass
@@ -127,7 +128,12 @@ class SourceFile:
     def __init__(self, filename: pathlib.Path):
         self.replacements: list[Replacement] = []
         self.filename = filename
-        self.source = self.filename.read_text("utf-8")
+        with open(self.filename, "rb") as f:
+            # the encoding declared by the file (PEP 263), utf-8 by default
+            self.encoding, _ = tokenize.detect_encoding(f.readline)
+        if self.encoding == "utf-8-sig":
+            self.encoding = "utf-8"
+        self.source = self.filename.read_text(self.encoding)
 
     def rewrite(self, validate=None):
         new_code = self.new_code()
@@ -137,8 +143,12 @@ class SourceFile:
             # never replace a file with something which is not valid
             validate(new_code)
 
+        # characters which the declared encoding can not represent are only
+        # part of generated string literals, where an escape has the same meaning
+        data = new_code.encode(self.encoding, "backslashreplace")
+
         with open(self.filename, "bw") as code:
-            code.write(new_code.encode())
+            code.write(data)
 
     def virtual_write(self):
         self.source = self.new_code()
@@ -161,7 +171,7 @@ class SourceFile:
 
         self._check()
 
-        code = self.filename.read_text("utf-8")
+        code = self.filename.read_text(self.encoding)
 
         format_whole_file = enforce_formatting() or code == format_code(
             code, self.filename
